@@ -227,6 +227,9 @@ type absRound struct {
 	Timestamp uint64
 	Version   string
 	Seq       string
+
+	deployedHere map[string]bool
+	declaredHere map[string]bool
 }
 
 const fixtureDir = "/repo/clients/feeder/testdata/sepolia/preconfirmed/"
@@ -464,17 +467,21 @@ func (u *universe) classHashes() []string {
 	return append(out, hx(0xdeadc))
 }
 
-// genRound generates a round of `number` with ntx transactions. Validity
-// conventions (so that "overlay in order" is unambiguous): a ViewNew contract
-// is deployed only at its fixed height and written only at or after its
-// deployment; classes are replaced only for contracts that exist.
-func genRound(rng *rand.Rand, u *universe, number uint64, ident string, ntx int, txSerial *uint64) *absRound {
-	r := &absRound{
+// newRound / extend generate a round of `number` and add transactions to it.
+// Validity conventions (so that "overlay in order" is unambiguous): a ViewNew
+// contract is deployed only at its fixed height and written only at or after
+// its deployment; classes are replaced only after a deployment point.
+func newRound(rng *rand.Rand, number uint64, ident string) *absRound {
+	return &absRound{
 		Number: number, Ident: ident, Timestamp: 1_700_000_000 + number*7 + rng.Uint64N(5),
 		Version: []string{"0.14.0", "0.14.1", "0.14.2"}[rng.IntN(3)], Seq: hx(0xabc0 + rng.Uint64N(4)),
+		deployedHere: map[string]bool{}, declaredHere: map[string]bool{},
 	}
-	deployedHere := map[string]bool{}
-	declaredHere := map[string]bool{}
+}
+
+func (r *absRound) extend(rng *rand.Rand, u *universe, ntx int, txSerial *uint64) {
+	number := r.Number
+	deployedHere, declaredHere := r.deployedHere, r.declaredHere
 	for i := 0; i < ntx; i++ {
 		d := newAbsDiff()
 		kind := "INVOKE_FUNCTION"
@@ -549,7 +556,15 @@ func genRound(rng *rand.Rand, u *universe, number uint64, ident string, ntx int,
 		hash := hx(number<<32 | *txSerial)
 		r.Txs = append(r.Txs, mkTx(rng, hash, kind, rng.IntN(3), rng.IntN(7) == 0, d))
 	}
-	return r
+}
+
+// declared lists the class hashes declared by transactions [from,to).
+func (r *absRound) declared(from, to int) (v0, v1 []string) {
+	for _, tx := range r.Txs[from:to] {
+		v0 = append(v0, tx.Diff.DeclV0...)
+		v1 = append(v1, sortedKeys(tx.Diff.DeclV1)...)
+	}
+	return
 }
 
 // classDef makes a distinguishable opaque class definition for a class hash.
